@@ -387,9 +387,9 @@ class DecayMegacomplexMatrix(Contract):
     agreement_runs = 0
 
     def cases(self, tier):
-        for kind in ("decay-sequential", "decay-parallel", "decay-chain", "decay-chain-initial-order", "decay-two-kmatrices", "decay-kmatrices-override"):
+        for kind in ("decay-sequential", "decay-parallel", "decay-chain", "decay-chain-initial-order", "decay-two-kmatrices", "decay-two-kmatrices-reversed", "decay-kmatrices-override"):
             for n in (1, 2, 3) if tier == "quick" else (1, 2, 3, 4):
-                if kind == "decay-two-kmatrices" and n < 2:
+                if kind.startswith("decay-two-kmatrices") and n < 2:
                     continue
                 yield {"kind": kind, "n": n, "nt": 2}
 
@@ -433,9 +433,12 @@ class DecayMegacomplexMatrix(Contract):
             struct = [(i + 1, i) for i in range(n - 1)] + [(n - 1, n - 1)]
             k = {e: ks[e[1]] for e in struct}
             entries = {(names[t_], names[f]): rates[f] for t_, f in struct}
-            if kind == "decay-two-kmatrices":
+            if kind in ("decay-two-kmatrices", "decay-two-kmatrices-reversed"):
                 items = list(entries.items())
                 kms = [KMatrix(label="k1", matrix=dict(items[:1])), KMatrix(label="k2", matrix=dict(items[1:]))]
+                if kind.endswith("reversed"):
+                    # the K-matrix listed first involves the *later* compartments of the initial concentration
+                    kms = [KMatrix(label="k1", matrix=dict(items[1:])), KMatrix(label="k2", matrix=dict(items[:1]))]
             elif kind == "decay-kmatrices-override":
                 # entries declared in several K-matrices: the later one wins (KMatrix.combine, right biased)
                 stale = {key: Parameter(label=f"stale.{i+1}", value=S.real(f"stale_{i}")) for i, key in enumerate(entries)}
